@@ -157,7 +157,12 @@ class NameDatabase:
         return name
 
     def __getitem__(self, value):
-        if isinstance(value, (int, float, str)):
+        if type(value) in (int, bool, str) or (
+            type(value) is float and value - value == 0
+        ):
+            # Only values whose repr is a literal that evaluates back to
+            # them (not enum members, nor inf / nan, nor instances of
+            # subclasses with their own repr)
             return repr(value)
         if id(value) in self.names:
             return self.names[id(value)]
